@@ -108,7 +108,7 @@ fn inject_strategy(tier: Tier) -> BoxedStrategy<Case> {
 
 fn check(case: &Case, p: &mut Probe) -> Check {
     let input = serde_json::to_value(case).unwrap();
-    let res = run_child("c13", &input, Duration::from_secs(60));
+    let res = run_child("c13", &input, Duration::from_secs(90));
     let v = match res {
         ChildResult::Exited(0, Some(v), _) => v,
         ChildResult::Exited(3, Some(v), _) => v, // hang with a positive deadlock witness (child reports it as a violation)
@@ -116,7 +116,7 @@ fn check(case: &Case, p: &mut Probe) -> Check {
             return Err(Fail::new("child-crash", format!("child exited with status {code} (output {v:?}); stderr: {err}")));
         }
         ChildResult::Signalled(err) => return Err(Fail::new("child-abort", format!("child was killed by a signal (abort?); stderr: {err}"))),
-        ChildResult::TimedOut(_, err) => return Err(Fail::new(INCONCLUSIVE, format!("child exceeded the 60 s watchdog without a deadlock witness for {case:?}; stderr: {err}"))),
+        ChildResult::TimedOut(_, err) => return Err(Fail::new(INCONCLUSIVE, format!("child exceeded the 90 s watchdog without a deadlock witness for {case:?}; stderr: {err}"))),
     };
     for c in v["classes"].as_array().cloned().unwrap_or_default() {
         if let Some(s) = c.as_str() {
@@ -342,7 +342,7 @@ pub fn child_main() -> ! {
     };
     let verdict = run_case(&case);
     println!("{verdict}");
-    std::process::exit(if verdict["key"] == "hang" { 3 } else { 0 });
+    std::process::exit(if verdict["key"] == "hang" || verdict["key"] == "never-stops" { 3 } else { 0 });
 }
 
 fn run_case(c: &Case) -> serde_json::Value {
@@ -378,9 +378,11 @@ fn run_case(c: &Case) -> serde_json::Value {
     let monitor = {
         let (sh, returned, reports) = (sh.clone(), returned.clone(), reports.clone());
         let (max_err, last_ebn0, bch) = (c.max_err, *ebn0s.last().unwrap(), c.bch);
+        let (npoints, injected_none) = (ebn0s.len(), c.inject == Inject::None);
         std::thread::spawn(move || {
             let mut all_dead_since: Option<Instant> = None;
             let mut final_seen_since: Option<Instant> = None;
+            let mut flood_since: Option<Instant> = None;
             loop {
                 match rx.recv_timeout(Duration::from_millis(20)) {
                     Ok(r) => {
@@ -411,6 +413,21 @@ fn run_case(c: &Case) -> serde_json::Value {
                     }
                 } else {
                     all_dead_since = None;
+                }
+                // the decoders have long produced far more error frames than every point together needs
+                // (50 times as many plus 200 000) and, 20 s later, run() has still not returned: the
+                // stopping rule does not see them
+                let need = max_err * npoints as u64;
+                let produced_err: u64 = {
+                    let pr = sh.produced.lock().unwrap();
+                    if bch { pr[4] + pr[5] } else { pr[2] + pr[3] + pr[4] + pr[5] }
+                };
+                if injected_none && produced_err >= 50 * need + 200_000 {
+                    let t = *flood_since.get_or_insert_with(Instant::now);
+                    if t.elapsed() > Duration::from_secs(20) {
+                        println!("{}", json!({"status": "violation", "key": "never-stops", "msg": format!("the scripted decoders have produced {produced_err} error frames, {need} are required in total, and 20 s later run() is still going: the point does not stop when the required number of frame errors has been collected"), "classes": [], "nontrivial": true}));
+                        std::process::exit(3);
+                    }
                 }
                 if let Some(t) = final_seen_since {
                     if t.elapsed() > Duration::from_secs(10) {
@@ -591,7 +608,7 @@ pub fn property() -> Property {
             }),
             Box::new(Sub {
                 name: "fault-injection",
-                rule: "failure-injecting configurations, each in a child process with a witness monitor: puncturing pattern that does not divide n (stage returns an error), interleaver columns / 8PSK symbol size that do not divide the transmitted length (stage panics in every worker), scripted decoder panicking in all / some workers at a generated frame (in 40 % of these every frame takes 30 ms, so that the surviving workers are mid-frame when the fault is noticed); required: run() returns (Err for the block-size cases; Err, or statistics satisfying all identities, when only some workers died), does not itself panic, 'finished' is delivered once and last, every decoder built has been dropped at the very moment run() returns (all workers joined); a hang is a violation only with a positive witness (every decoder built has been dropped and run() has not returned 4 s later, or the final report of the last point was seen and run() has not returned 10 s later); a bare 60 s watchdog expiry is inconclusive (exit 2)",
+                rule: "failure-injecting configurations, each in a child process with a witness monitor: puncturing pattern that does not divide n (stage returns an error), interleaver columns / 8PSK symbol size that do not divide the transmitted length (stage panics in every worker), scripted decoder panicking in all / some workers at a generated frame (in 40 % of these every frame takes 30 ms, so that the surviving workers are mid-frame when the fault is noticed); required: run() returns (Err for the block-size cases; Err, or statistics satisfying all identities, when only some workers died), does not itself panic, 'finished' is delivered once and last, every decoder built has been dropped at the very moment run() returns (all workers joined); a hang is a violation only with a positive witness (every decoder built has been dropped and run() has not returned 4 s later, or the final report of the last point was seen and run() has not returned 10 s later); a run that is still going 20 s after the scripted decoders have produced 50 times the required error frames plus 200 000 has missed its stopping rule (violation); a bare 90 s watchdog expiry is inconclusive (exit 2)",
                 cases: |t| t.pick(200, 5_000),
                 strategy: inject_strategy,
                 check,
